@@ -86,20 +86,25 @@ VStart(c, len) ==
 \*         replayed  a finish box recorded from the legitimate controller's exchange
 \*         unknown   names nobody stored
 \*         self      names the accessory's own id (which IS an entity in the database, hap/device.go:25-36)
+\*         selfkey   names the accessory's own id, signed with the ACCESSORY's long-term key over this exchange's material:
+\*                   a valid signature under a stored key, but the accessory is not a controller (guard
+\*                   accessory_is_not_a_controller; whoever holds the accessory's key must not become a controller by it)
 \*         reflect   names the accessory's own id and echoes the accessory's own signature from its start response
 \*         crossname names ANOTHER controller ("x", stored iff the extra pairing was added), signed by the legitimate
 \*                   controller's key over this exchange's material with the claimed name: one paired controller posing as another
 \*         badseal   box under a wrong key          short  box shorter than a tag     badtlv  garbage inside a good box
-NeedsSecret(kind) == kind \in {"genuine", "wrongkey", "stale", "reordered", "unknown", "self", "reflect", "badtlv", "crossname"}
+NeedsSecret(kind) == kind \in {"genuine", "wrongkey", "stale", "reordered", "unknown", "self", "selfkey", "reflect", "badtlv", "crossname"}
 NameOf(kind) == CASE kind \in {"genuine", "wrongkey", "stale", "reordered"} -> "legit"
-                  [] kind \in {"self", "reflect"} -> "acc"
+                  [] kind \in {"self", "selfkey", "reflect"} -> "acc"
                   [] kind = "crossname" -> "x"
                   [] OTHER -> "nobody"
-Stored(n) == (n = "legit" /\ legitPaired) \/ n = "acc" \/ (n = "x" /\ extra)
+\* the accessory's own entity lives in the same database; as a CONTROLLER it is known only when the guard is missing
+Stored(n) == (n = "legit" /\ legitPaired) \/ (n = "acc" /\ ~Guard("accessory_is_not_a_controller")) \/ (n = "x" /\ extra)
 \* the name whose stored key the signature is checked against
 KeyOf(c, kind) == IF Guard("key_looked_up_per_finish") \/ cache[c] = "none" THEN NameOf(kind) ELSE cache[c]
 \* genuine and crossname are signed with the legitimate controller's key over the right material (with the claimed name)
-SignatureValid(c, kind) == kind \in {"genuine", "crossname"} /\ c \in LegitConn /\ KeyOf(c, kind) = "legit" /\ legitPaired
+SignatureValid(c, kind) == \/ kind \in {"genuine", "crossname"} /\ c \in LegitConn /\ KeyOf(c, kind) = "legit" /\ legitPaired
+                           \/ kind = "selfkey" /\ KeyOf(c, kind) = "acc"
 NameKnown(c, kind) == Stored(KeyOf(c, kind))
 
 VFinish(c, kind) ==
